@@ -67,6 +67,10 @@ def evaluate_bounds(case):
     from lbfgsb.base import get_bounds
     out = {"corr": [], "skipped": None, "tags": [f"bounds_mode={case['mode']}"], "prop": []}
     x0 = np.array(case["x0"], dtype=float)
+    if case["seed"] % 5 == 0:
+        # the start handed over in single precision (its values, exactly representable in double precision, are what the model gets)
+        x0 = x0.astype(np.float32)
+        out["tags"].append("bounds_x0_float32")
     b = case["bounds"]
     try:
         lb, ub = get_bounds(x0, None if b is None else [tuple(p) for p in b])
@@ -81,7 +85,7 @@ def evaluate_bounds(case):
             want_ub = np.array([np.inf if (b is None or b[j][1] is None) else float(b[j][1]) for j in range(len(x0))], dtype=float)
             if vhex(lb) != vhex(want_lb) or vhex(ub) != vhex(want_ub):
                 out["prop"].append({"what": "get_bounds returns other bounds than the caller gave (points would be kept in a different box)", "key": "",
-                                    "detail": {"x0": case["x0"], "bounds": b, "lb": np.asarray(lb).tolist(), "ub": np.asarray(ub).tolist()}})
+                                    "detail": {"x0": case["x0"], "x0_dtype": str(x0.dtype), "bounds": b, "lb": np.asarray(lb).tolist(), "ub": np.asarray(ub).tolist()}})
         out["tags"].append("bounds_accepted=True")
     except ValueError as e:
         kind = next((k for pat, k in _ERR if pat in str(e)), "other:" + str(e)[:60])
@@ -91,11 +95,11 @@ def evaluate_bounds(case):
         impl = f"getbounds exc {type(e).__name__}"
         out["tags"].append(f"bounds_exc={type(e).__name__}")
     if b is None:
-        line = f"getbounds {vhex(x0)} none -"
+        line = f"getbounds {vhex(x0.astype(float))} none -"
     else:
         lo = ",".join("N" if p[0] is None else fhex(p[0]) for p in b) or "-"
         hi = ",".join("N" if p[1] is None else fhex(p[1]) for p in b) or "-"
-        line = f"getbounds {vhex(x0)} {lo} {hi}"
+        line = f"getbounds {vhex(x0.astype(float))} {lo} {hi}"
     got = shell.driver().run([line])
     if not got or got[0] != impl:
         out["corr"].append(f"get_bounds: implementation {impl!r} model {(got or [''])[0]!r}")
